@@ -62,6 +62,8 @@ inductive Lab
   | acquire (aid : Nat) (ok : Bool)
   /-- bookkeeping flags / expiry of an app (placement, identity, static data untouched) -/
   | appMeta (aid : Nat)
+  /-- the `renew` flag of an app -/
+  | setRenew (aid : Nat) (b : Bool)
   /-- ghost `evicted`-dict entry of an app -/
   | ghost (aid : Nat)
   | dropDangling (aid : Nat)
@@ -77,6 +79,7 @@ def Lab.target : Lab → Option Nat
   | .release a => some a
   | .acquire a _ => some a
   | .appMeta a => some a
+  | .setRenew a _ => some a
   | .ghost a => some a
   | .dropDangling a => some a
   | .forgetIdentity a => some a
@@ -93,8 +96,9 @@ inductive LPrim : Lab → Cell → Cell → Prop
       a'.identity = a.identity → a'.group = a.group → a'.demand = a.demand → a'.aff = a.aff →
       a'.limits = a.limits → a'.traits = a.traits → a'.alloc = a.alloc → a'.lease = a.lease →
       a'.blacklisted = a.blacklisted → a'.schedOnce = a.schedOnce → a'.retention = a.retention →
-      a'.prio = a.prio → a'.unschedule = a.unschedule →
+      a'.prio = a.prio → a'.unschedule = a.unschedule → a'.renew = a.renew →
       LPrim (.appMeta a.id) c (c.setApp a')
+  | setRenew {c a b} : c.app? a.id = some a → LPrim (.setRenew a.id b) c (c.setApp { a with renew := b })
   | ghost {c a v} : c.app? a.id = some a → LPrim (.ghost a.id) c (c.setApp { a with evFrom := v })
   | dropDangling {c a sid} : c.app? a.id = some a → a.server = some sid → c.srv? sid = none →
       LPrim (.dropDangling a.id) c (c.setApp { a with server := none, evicted := true })
